@@ -23,6 +23,8 @@ cp $ZN_REPO/go.sum $H/go.sum
 # pkg/server links on Linux only with the verif-tagged pipe file; ops that need it carry the tag `znserver`
 TAGS=verif
 [ -f $ZN_REPO/pkg/server/name_pipe_linux.go ] && TAGS=verif,znserver
+# the C20 op links pkg/server and needs both hook files
+if [ -f $ZN_REPO/pkg/server/name_pipe_linux.go ] && [ -f $ZN_REPO/pkg/server/verif_hooks.go ]; then TAGS=$TAGS,pmhooks; fi
 (cd $H && go build -tags $TAGS -o $B/znharness .)
 # the same harness under the race detector (C16); cgo/gcc needed, skipped quietly when unavailable
 if [ "${ZN_RACE:-1}" = "1" ]; then (cd $H && go build -race -tags $TAGS -o $B/znharness-race . 2>/dev/null) || true; fi
